@@ -80,7 +80,11 @@ func classifyRejection(lines []string) string {
 				parts := strings.Fields(r)
 				var keep []string
 				for _, p := range parts {
-					if strings.Contains(p, "=") {
+					if strings.Contains(p, "=") || strings.Contains(p, "0x") || strings.HasSuffix(p, ":") || strings.HasSuffix(p, ".") {
+						// a key=value, a hash / node id, or "nodeID:" introducing one: the stable part ends here
+						if t := strings.TrimRight(p, ":."); t != "" && !strings.Contains(t, "=") && !strings.Contains(t, "0x") {
+							keep = append(keep, t)
+						}
 						break
 					}
 					keep = append(keep, p)
